@@ -72,11 +72,27 @@ def deep_equal(seq1: Iterable[Any],
             elif value1 is None:
                 return True
             elif isinstance(value1, XPathMap):
-                if not isinstance(value2, XPathMap) or value1 != value2:
+                # Same keys and deep-equal values
+                if not isinstance(value2, XPathMap) or len(value1) != len(value2):
                     return False
+                items2 = list(value2.items())
+                for k1, v1 in value1.items():
+                    for k2, v2 in items2:
+                        if same_key(k1, k2):
+                            break
+                    else:
+                        return False
+                    if not deep_equal(v1 if isinstance(v1, list) else [v1],
+                                      v2 if isinstance(v2, list) else [v2], collation, token):
+                        return False
             elif isinstance(value1, XPathArray):
-                if not isinstance(value2, XPathArray) or value1 != value2:
+                # Same size and deep-equal members
+                if not isinstance(value2, XPathArray) or len(value1) != len(value2):
                     return False
+                for v1, v2 in zip(value1.items(), value2.items()):
+                    if not deep_equal(v1 if isinstance(v1, list) else [v1],
+                                      v2 if isinstance(v2, list) else [v2], collation, token):
+                        return False
             elif isinstance(value1, XPathNode):
                 if not isinstance(value2, XPathNode):
                     return False
